@@ -26,6 +26,7 @@ import (
 	"github.com/tink-crypto/tink-go/v2/prf/hmacprf"
 	prfsubtle "github.com/tink-crypto/tink-go/v2/prf/subtle"
 	tinksubtle "github.com/tink-crypto/tink-go/v2/subtle"
+	"github.com/tink-crypto/tink-go/v2/verifharness/internal/aeadcase"
 	"github.com/tink-crypto/tink-go/v2/verifharness/internal/detrand"
 	"github.com/tink-crypto/tink-go/v2/verifharness/internal/evid"
 	"github.com/tink-crypto/tink-go/v2/verifharness/internal/gen"
@@ -112,21 +113,21 @@ func (c *prfCase) one(t *rapid.T, x []byte, n uint32) []byte {
 	out1, err1 := c.p.ComputePRF(x, n)
 	out2, err2 := c.p.ComputePRF(append([]byte{}, x...), n)
 	if (err1 == nil) != (err2 == nil) || !bytes.Equal(out1, out2) {
-		t.Fatalf("%v: ComputePRF(%x, %d) not deterministic: %x (%v) vs %x (%v)", c, x, n, out1, err1, out2, err2)
+		t.Fatalf("%v: ComputePRF(%s, %d) not deterministic: %x (%v) vs %x (%v)", c, hxl(x), n, out1, err1, out2, err2)
 	}
 	switch {
 	case int64(n) > int64(c.max):
 		if err1 == nil {
-			t.Fatalf("%v: ComputePRF(%x, %d) beyond the maximum %d succeeded with %d bytes: %s", c, x, n, c.max, len(out1), gen.Hex(out1))
+			t.Fatalf("%v: ComputePRF(%s, %d) beyond the maximum %d succeeded with %d bytes: %s", c, hxl(x), n, c.max, len(out1), gen.Hex(out1))
 		}
 		if len(out1) != 0 {
-			t.Fatalf("%v: ComputePRF(%x, %d) failed (%v) but returned output %s", c, x, n, err1, gen.Hex(out1))
+			t.Fatalf("%v: ComputePRF(%s, %d) failed (%v) but returned output %s", c, hxl(x), n, err1, gen.Hex(out1))
 		}
 		return nil
 	case n == 0:
 		// The property says nothing about n = 0: an error or an empty output are both fine.
 		if err1 == nil && len(out1) != 0 {
-			t.Fatalf("%v: ComputePRF(%x, 0) returned %d bytes", c, x, len(out1))
+			t.Fatalf("%v: ComputePRF(%s, 0) returned %d bytes", c, hxl(x), len(out1))
 		}
 		if err1 != nil {
 			evid.Add("n0_refused", 1)
@@ -135,11 +136,11 @@ func (c *prfCase) one(t *rapid.T, x []byte, n uint32) []byte {
 		return []byte{}
 	}
 	if err1 != nil {
-		t.Fatalf("%v: ComputePRF(%x, %d) failed inside 1..%d: %v", c, x, n, c.max, err1)
+		t.Fatalf("%v: ComputePRF(%s, %d) failed inside 1..%d: %v", c, hxl(x), n, c.max, err1)
 	}
 	want := c.ref(x, int(n))
 	if !bytes.Equal(out1, want) {
-		t.Fatalf("%v: ComputePRF(%x, %d) = %x, reference says %x", c, x, n, out1, want)
+		t.Fatalf("%v: ComputePRF(%s, %d) = %x, reference says %x", c, hxl(x), n, out1, want)
 	}
 	return out1
 }
@@ -181,20 +182,30 @@ func (c *prfCase) check(t *rapid.T, x []byte) uint32 {
 	om := c.one(t, x, m)
 	ok := c.one(t, x, k)
 	if ok != nil && !bytes.HasPrefix(om, ok) {
-		t.Fatalf("%v: ComputePRF(%x, %d) = %x is not a prefix of ComputePRF(.., %d) = %x", c, x, k, ok, m, om)
+		t.Fatalf("%v: ComputePRF(%s, %d) = %x is not a prefix of ComputePRF(.., %d) = %x", c, hxl(x), k, ok, m, om)
 	}
 	// the maximum succeeds, one more fails, and so does a drawn larger request
 	if c.one(t, x, uint32(c.max)) == nil {
-		t.Fatalf("%v: ComputePRF(%x, max=%d) returned nothing", c, x, c.max)
+		t.Fatalf("%v: ComputePRF(%s, max=%d) returned nothing", c, hxl(x), c.max)
 	}
 	c.one(t, x, uint32(c.max+1))
 	var big uint32
 	if c.alg == "HKDF" {
-		// the HKDF code allocates the requested length before it fails; stay below 1 MiB.
+		// The HKDF code allocates the requested length before it refuses it (prf/subtle/hkdf.go:
+		// make([]byte, outputLength), then the read fails), so requests stay at or below 1 MiB, and once
+		// in about 400 cases go to 16 MiB (thorough tier: also 256 MiB = 2^31 bits). 1<<31 and math.MaxUint32, which the
+		// other two PRFs get, would allocate 2 and 4 GiB per call here: not sent.
 		if rapid.Bool().Draw(t, "big_kind") {
 			big = uint32(rapid.IntRange(c.max+2, c.max+4096).Draw(t, "big"))
 		} else {
 			big = uint32(rapid.SampledFrom([]int{2 * c.max, 256 * c.h, 256*c.h + 1, 1 << 16, 1 << 20}).Draw(t, "big"))
+		}
+		if aeadcase.OneIn(t, "huge_request", 400) {
+			big = 1 << 24
+			if evid.Tier() == "thorough" { // (two 256 MiB allocations per case: thorough tier only)
+				big = uint32(rapid.SampledFrom([]int{1 << 24, 1<<28 - 1, 1 << 28}).Draw(t, "huge"))
+			}
+			evid.Add("hkdf_huge_requests", 1)
 		}
 	} else {
 		if rapid.Bool().Draw(t, "big_kind") {
@@ -204,8 +215,77 @@ func (c *prfCase) check(t *rapid.T, x []byte) uint32 {
 		}
 	}
 	c.one(t, x, big)
+	c.interleaved(t, x)
 	evid.Add("prf_calls", 14)
 	return n
+}
+
+func xored(b []byte, v byte) []byte {
+	out := make([]byte, len(b))
+	for i := range b {
+		out[i] = b[i] ^ v
+	}
+	return out
+}
+
+// interleaved: C15 speaks about the values ComputePRF returns for inputs as byte strings. Several
+// different inputs are evaluated on the ONE PRF object, two of them through one input buffer that
+// the caller refills in place between the calls (starting with an input the object has not met);
+// every output is compared with the reference when it is returned, kept WITHOUT copying, and
+// compared again after all calls: an output handed out earlier must still be the PRF value of its
+// input once other inputs have been evaluated.
+func (c *prfCase) interleaved(t *rapid.T, x []byte) {
+	type kept struct {
+		in, out, want []byte
+		n             uint32
+	}
+	var all []kept
+	call := func(what string, in []byte) {
+		// (output lengths mostly within four digests: the HKDF reference costs one HMAC per digest)
+		n := uint32(rapid.IntRange(1, min(c.max, 4*c.h)).Draw(t, "il_n"))
+		if rapid.IntRange(0, 7).Draw(t, "il_nedge") == 0 {
+			n = uint32(rapid.SampledFrom([]int{1, c.h, c.max}).Draw(t, "il_nval"))
+		}
+		out, err := c.p.ComputePRF(in, n)
+		want := c.ref(in, int(n))
+		if err != nil || !bytes.Equal(out, want) {
+			t.Fatalf("%v: interleaved inputs on one object, step %d (%s): ComputePRF(%s, %d) = %s (%v), reference says %s; earlier inputs of this object: %s", c, len(all), what, hxl(in), n, hxl(out), err, hxl(want), func() string {
+				s := ""
+				for _, k := range all {
+					s += fmt.Sprintf("(%s, %d) ", hxl(k.in), k.n)
+				}
+				return s
+			}())
+		}
+		all = append(all, kept{bytes.Clone(in), out, want, n})
+	}
+	buf := xored(x, 0x11)
+	if len(x) == 0 {
+		buf = []byte{0x11}
+	}
+	call("input buffer, first fill", buf)
+	for i := range buf {
+		buf[i] ^= 0x33
+	}
+	call("the same input buffer refilled in place (every byte ^0x33)", buf)
+	if rapid.Bool().Draw(t, "il_third") {
+		call("input || 0x01 in a new slice", append(bytes.Clone(x), 0x01))
+	}
+	call("the first fill again, in a new slice", bytes.Clone(all[0].in))
+	for i, k := range all {
+		if !bytes.Equal(k.out, k.want) {
+			t.Fatalf("%v: the output returned at step %d for ComputePRF(%s, %d) was %s; after %d later calls with other inputs on the same object the returned slice holds %s", c, i, hxl(k.in), k.n, hxl(k.want), len(all)-1-i, hxl(k.out))
+		}
+	}
+	evid.Add("interleaved_calls", int64(len(all)))
+}
+
+// hxl prints a byte string in full up to 2 KiB and abbreviated beyond (size class).
+func hxl(b []byte) string {
+	if len(b) <= 2100 {
+		return fmt.Sprintf("%x", b)
+	}
+	return fmt.Sprintf("%x..%x(%d bytes)", b[:32], b[len(b)-32:], len(b))
 }
 
 // managerHandle builds a one-key handle and returns the assigned key id.
@@ -454,6 +534,9 @@ func TestCMACPRF(t *testing.T) {
 		}
 		keyBytes := gen.BytesN(rt, "key", kl)
 		x := gen.Bytes(rt, "input", 2048)
+		if n, big := aeadcase.BigLen(rt, "input", 2000); big {
+			x = gen.BytesN(rt, "biginput", n) // size class: page / buffer boundaries and 1 MiB
+		}
 		c, stage, err := buildCMACPRF(rt, keyBytes, route)
 		if err != nil {
 			if kl == 16 && route != "subtle" && stage == "ctor" {
@@ -463,7 +546,11 @@ func TestCMACPRF(t *testing.T) {
 			rt.Fatalf("AES-CMAC-PRF key=%x route=%s: construction failed at %s: %v", keyBytes, route, stage, err)
 		}
 		n := c.check(rt, x)
-		c.record(x, n, fmt.Sprintf("/aes%d/in%%16=%s", kl*8, blockRel(len(x), 16)))
+		sizeClass := ""
+		if len(x) >= 4096 {
+			sizeClass = "/in>=4096"
+		}
+		c.record(x, n, fmt.Sprintf("/aes%d/in%%16=%s%s", kl*8, blockRel(len(x), 16), sizeClass))
 	})
 }
 
@@ -675,6 +762,10 @@ func TestComputeHKDFHelper(t *testing.T) {
 			l = rapid.SampledFrom([]int{0, 1, 9, 10, 11, 16, h - 1, h, h + 1, 2 * h, 2*h + 1, max - 1, max, max + 1}).Draw(rt, "l")
 		} else {
 			l = rapid.IntRange(0, max+1).Draw(rt, "l")
+		}
+		if aeadcase.OneIn(rt, "l_huge", 50) {
+			// far beyond the limit (the helper checks the length before it allocates)
+			l = rapid.SampledFrom([]int{1 << 16, 1 << 31, 1<<31 + max, math.MaxUint32 - 1, math.MaxUint32}).Draw(rt, "l_hugeval")
 		}
 		call := func() ([]byte, error) {
 			var s []byte
